@@ -155,6 +155,26 @@ def search(rep, ctx) -> bool:
     r = rng(ctx.seed, "c04-search")
     radio = [i for i in range(view.n) if view.rate[i] != 0]
     order = radio if ctx.tier == "thorough" else radio[:80] + r.sample(radio, min(220, len(radio)))
+    # nuclides whose LOADED double-precision decay constant is not ln2 / (listed half-life in seconds), or whose loaded
+    # double mass is not the exact one, first: that is where a stale or mis-converted entry shows
+    import math
+    prio = []
+    try:
+        sd = rd.DEFAULTDATA.scipy_data
+        sy = rd.DEFAULTDATA.sympy_data
+        for i in radio:
+            want = math.log(2) * float(view.rate[i])
+            if abs(float(sd.decay_consts[i]) - want) > 1e-12 * want:
+                prio.append(i)
+        for i in range(view.n):
+            if sy is not None and abs(float(sd.atomic_masses[i]) - float(sy.atomic_masses[i])) > 1e-12 * float(sy.atomic_masses[i]):
+                rep.violation("failing-input", f"atomic mass of {view.names[i]}: double {float(sd.atomic_masses[i])!r} vs exact "
+                              f"{float(sy.atomic_masses[i])!r} — Inventory and InventoryHP convert masses differently",
+                              {"call": "mass", "nuclide": view.names[i]}, True)
+                return True
+    except Exception:  # noqa: BLE001
+        pass
+    order = prio + [i for i in order if i not in prio]
     found = False
     for i in order:
         name = view.names[i]
